@@ -200,5 +200,8 @@ def search_db(outdir: str):
     p = os.path.join(outdir, "search", "search_database.json")
     if not os.path.exists(p):
         return None
-    with open(p) as f:
-        return json.load(f)
+    with open(p, encoding="utf-8") as f:
+        text = f.read()
+    if text.startswith("var tipuesearch ="):
+        text = text[len("var tipuesearch ="):]
+    return json.loads(text.strip().rstrip(";"))
